@@ -35,6 +35,7 @@ CONSTANTS
     GenMode,        \* "full": unrestricted adversary; "budget": at most HostileBudget non-cooperative actions;
                     \* "sim": cooperative until simulation depth HostileFrom
     HostileBudget, HostileFrom,
+    MaxSleeps,      \* passages of real time per behaviour (keeps a replayed behaviour far below the 10 s timers)
     EmitMode,       \* "none" | "edge" (every edge, BFS) | "final" (whole behaviour at depth SimDepth, -simulate)
     SimDepth
 
@@ -42,13 +43,14 @@ DefectNames == {"proposalNoReturn",   \* hs_prot.go: ServerListenProposal contin
                 "emptyFormatPanic",   \* hs_prot.go: index panic on a present-but-empty format list
                 "approveNoCheck",     \* connection.go: ApprovePendingHandshake goes to hello-ok even if the ready send failed
                 "closeBypassOnce",    \* handshake.go: announce/confirm report the end without the once
-                "onceReentrance"}     \* connection.go: safe close with an already closed writer re-enters sync.Once
+                "onceReentrance",     \* connection.go: safe close with an already closed writer re-enters sync.Once
+                "noClosedGuard"}      \* a closed connection still processes handshake input
 ASSUME Defects \subseteq DefectNames
 Has(d) == d \in Defects
 
-VARIABLES E, net, failBudget, userDone, approvedPending, cancelled, userClosed, faults, hb, acc, viol, lastAct, hist
+VARIABLES E, net, failBudget, userDone, approvedPending, cancelled, userClosed, faults, hb, sleeps, acc, viol, lastAct, hist
 
-vars == <<E, net, failBudget, userDone, approvedPending, cancelled, userClosed, faults, hb, acc, viol, lastAct, hist>>
+vars == <<E, net, failBudget, userDone, approvedPending, cancelled, userClosed, faults, hb, sleeps, acc, viol, lastAct, hist>>
 
 Peer(e) == CHOOSE p \in Endpoints : p # e
 
@@ -83,7 +85,7 @@ InitRec(e) ==
       tRun |-> FALSE, tType |-> "WFR", tLeft |-> 0, fires |-> 0, lastWaiting |-> FALSE,
       reader |-> FALSE, buf |-> <<>>,
       stored |-> Stored0[e], myId |-> MyId[e],
-      wsOpen |-> TRUE, errPending |-> FALSE, late |-> 0, once |-> FALSE, reported |-> FALSE,
+      wsOpen |-> TRUE, errPending |-> FALSE, late |-> 0, once |-> FALSE, cl |-> FALSE, reported |-> FALSE,
       pending |-> <<>>, annBusy |-> FALSE,
       failAt |-> 0, paired |-> Paired0[e], auto |-> Auto0[e], allowWait |-> AllowWait0[e],
       panicked |-> FALSE, deadlocked |-> FALSE, helloSeen |-> FALSE, lateHello |-> FALSE,
@@ -112,7 +114,9 @@ Report(r, S) == Ev(r, "rep", S)
 CloseReport(r, end) ==
     IF ~Has("closeBypassOnce") /\ r.reported THEN r
     ELSE Ev([r EXCEPT !.reported = TRUE], "closed", B(end))
-CloseData(r, code) == Ev([r EXCEPT !.wsOpen = FALSE], "close", code)
+\* the announce / confirm handlers stop the handshake timer since the repair
+StopC(r) == IF Has("closeBypassOnce") THEN r ELSE StopT(r)
+CloseData(r, code) == Ev([r EXCEPT !.wsOpen = FALSE, !.cl = TRUE], "close", code)
 
 RECURSIVE CloseConn(_, _, _)
 RECURSIVE SendR(_, _)
@@ -140,7 +144,7 @@ AddTask(r, t) == IF \E i \in 1..Len(r.pending) : r.pending[i] = t THEN r
 CloseConn(r, safe, code) ==
     IF r.once
     THEN r
-    ELSE LET r1  == [StopT(r) EXCEPT !.once = TRUE]
+    ELSE LET r1  == [StopT(r) EXCEPT !.once = TRUE, !.cl = TRUE]
              end == r.st \in EndStates
          IN  IF safe /\ r.st = "Complete" /\ (r1.wsOpen \/ Has("onceReentrance"))
              THEN IF ~r1.wsOpen
@@ -332,6 +336,9 @@ Dispatch(r, to, m) ==
       [] r.st = "AccessMethodsRequest"  -> H_Access(r, m)
       [] OTHER                          -> r
 
+\* since the repair a connection on which CloseConnection ran ignores handshake input at its entry points
+Guarded(r) == r.cl /\ ~Has("noClosedGuard")
+
 \* HandleIncomingWebsocketMessage
 Incoming(r, m) ==
     IF m.t = "data" THEN (IF r.reader THEN Ev(r, "deliver", m.n)
@@ -342,8 +349,9 @@ Incoming(r, m) ==
          THEN LET s == SendR(r, MClose("confirm"))                       \* failure ignored
               IN  AddTask([s.r EXCEPT !.annBusy = TRUE], [k |-> "TAnn"])  \* the handler now blocks 500 ms
          ELSE IF m.ph = "confirm"
-         THEN CloseReport(CloseData(r, "4001"), r.st = "Complete")
+         THEN CloseReport(CloseData(StopC(r), "4001"), r.st = "Complete")
          ELSE r
+    ELSE IF Guarded(r) THEN r
     ELSE Dispatch(r, FALSE, m)
 
 Exec(r) ==
@@ -351,7 +359,8 @@ Exec(r) ==
         r0  == [r EXCEPT !.todo = Tail(@)]
     IN  CASE top.k = "H"        -> Dispatch(r0, FALSE, NoMsg)
           [] top.k = "Hm"       -> Incoming(r0, top.m)
-          [] top.k = "Ht"       -> Dispatch(r0, TRUE, NoMsg)
+          [] top.k = "Hrun"     -> IF Guarded(r0) THEN r0 ELSE Dispatch(r0, FALSE, NoMsg)
+          [] top.k = "Ht"       -> IF Guarded(r0) THEN r0 ELSE Dispatch(r0, TRUE, NoMsg)
           [] top.k = "Approve2" -> IF Has("approveNoCheck") \/ r0.st = "ReadyListen"
                                    THEN NextH(Rep(r0, "HelloOk")) ELSE r0
 
@@ -371,7 +380,7 @@ ConnErr(r) ==
 RunTask(r, t) ==
     CASE t.k = "T1s"  -> CloseConn(r, FALSE, "4452")
       [] t.k = "T500" -> CloseReport(CloseData(r, "4001"), t.end)
-      [] t.k = "TAnn" -> CloseReport(CloseData([r EXCEPT !.annBusy = FALSE], "4001"), r.st = "Complete")
+      [] t.k = "TAnn" -> CloseReport(CloseData(StopC([r EXCEPT !.annBusy = FALSE]), "4001"), r.st = "Complete")
 RECURSIVE RunTasks(_, _)
 RunTasks(r, ts) == IF ts = <<>> THEN r ELSE RunTasks(RunTask(r, Head(ts)), Tail(ts))
 SleepRec(r) ==
@@ -409,7 +418,7 @@ Apply(e, r, act) ==
 Act(a, e, m, id) == [a |-> a, e |-> e, m |-> m, id |-> id]
 
 Run(e) == /\ Alive(E[e]) /\ ~E[e].ran
-          /\ Apply(e, Settle(NextH([Clr[e] EXCEPT !.ran = TRUE])), Act("Run", e, "", ""))
+          /\ Apply(e, Settle(Push([Clr[e] EXCEPT !.ran = TRUE], <<[k |-> "Hrun"]>>)), Act("Run", e, "", ""))
           /\ Spend(FALSE)
           /\ UNCHANGED <<failBudget, userDone, approvedPending, cancelled, userClosed, faults>>
 
@@ -466,8 +475,14 @@ Tick == /\ Timed /\ ~OtherEnabled
         /\ Spend(FALSE)
         /\ UNCHANGED <<net, failBudget, userDone, approvedPending, cancelled, userClosed, faults>>
 
+\* Excluded corner (documented in DESIGN.md): with waiting no longer allowed, an expiring send-prolongation-request
+\* timer and no waiting value received so far, hs_hello.go arms the reply timer with time.Duration(66000) = 66
+\* MICROseconds (a units slip for 66 s); the real timer then fires at once on its own goroutine, which a
+\* sequential replay cannot observe deterministically.
+UnitsSlipCorner(r) == r.st = "PendingListen" /\ ~r.allowWait /\ r.tType = "SPR" /\ ~r.lastWaiting
+
 FireTimeout(e) ==
-    /\ Alive(E[e]) /\ E[e].tRun
+    /\ Alive(E[e]) /\ E[e].tRun /\ ~UnitsSlipCorner(E[e])
     /\ ~Timed => (E[e].fires < 3 /\ \A x \in Endpoints : Len(net[x]) <= 3)
     /\ Timed => (~OtherEnabled /\ E[e].tLeft = 0)
     /\ LET coop == Timed \/ E[e].st = "PendingListen"
@@ -480,7 +495,7 @@ FireTimeout(e) ==
 Approve(e) ==
     /\ Alive(E[e]) /\ ~userDone /\ E[e].role = "server" /\ E[e].ran
     /\ LET r == [Clr[e] EXCEPT !.paired = TRUE, !.allowWait = TRUE]
-       IN  IF r.st = "PendingListen"
+       IN  IF r.st = "PendingListen" /\ ~Guarded(r)
            THEN /\ Apply(e, Settle(Push(Rep(StopT(r), "ReadyInit"), <<[k |-> "H"], [k |-> "Approve2"]>>)), Act("Approve", e, "", ""))
                 /\ approvedPending' = TRUE
            ELSE /\ Apply(e, r, Act("Approve", e, "", ""))
@@ -491,7 +506,7 @@ Approve(e) ==
 Cancel(e) ==
     /\ HostileOK /\ Alive(E[e]) /\ ~userDone /\ E[e].role = "server" /\ E[e].ran
     /\ LET r == [Clr[e] EXCEPT !.paired = FALSE]
-       IN  IF r.st \in {"PendingListen", "ReadyListen"}
+       IN  IF r.st \in {"PendingListen", "ReadyListen"} /\ ~Guarded(r)
            THEN Apply(e, Settle(NextH(Rep(StopT(r), "Abort"))), Act("Cancel", e, "", ""))
            ELSE Apply(e, r, Act("Cancel", e, "", ""))
     /\ userDone' = TRUE /\ cancelled' = TRUE /\ Spend(TRUE) /\ UNCHANGED <<failBudget, approvedPending, userClosed, faults>>
@@ -519,6 +534,7 @@ LocalClose(e, safe) ==
 \* (also a check point once a transport is closed: nothing may be left undone then)
 Sleep ==
     /\ AnyPending \/ \E x \in Endpoints : ~E[x].wsOpen
+    /\ sleeps < MaxSleeps
     /\ \A x \in Endpoints : ~E[x].errPending
     /\ E' = [x \in Endpoints |-> SleepRec(Clr[x])]
     /\ net' = net /\ lastAct' = Act("Sleep", "", "", "")
@@ -570,13 +586,19 @@ Expect(r) == [ st |-> r.st, tRun |-> r.tRun, tType |-> r.tType, lw |-> r.lastWai
                buf |-> Len(r.buf), wsOpen |-> r.wsOpen, stored |-> r.stored, ev |-> r.ev,
                panicked |-> r.panicked, hung |-> r.deadlocked,
                pend |-> [i \in 1..Len(r.pending) |-> r.pending[i].k] ]
-Step == [a |-> lastAct', x |-> [e \in Endpoints |-> Expect(E'[e])], n |-> [e \in Endpoints |-> Len(net'[e])]]
+Pend(r) == [i \in 1..Len(r.pending) |-> r.pending[i].k]
+\* "final" (one line per simulated behaviour): every step carries the full expectation; "edge" (one line per edge):
+\* earlier steps only carry what the harness needs to pace real time, the last step carries the expectation
+Step == IF EmitMode = "edge"
+        THEN [a |-> lastAct', p |-> [e \in Endpoints |-> Pend(E'[e])]]
+        ELSE [a |-> lastAct', x |-> [e \in Endpoints |-> Expect(E'[e])], n |-> [e \in Endpoints |-> Len(net'[e])]]
+Last == [x |-> [e \in Endpoints |-> Expect(E'[e])], n |-> [e \in Endpoints |-> Len(net'[e])]]
 
 Init == /\ E = [e \in Endpoints |-> InitRec(e)]
         /\ net = [e \in Endpoints |-> <<>>]
         /\ failBudget = MaxFail /\ userDone = FALSE /\ approvedPending = FALSE /\ cancelled = FALSE
         /\ userClosed = FALSE /\ faults = FALSE
-        /\ hb = HostileBudget
+        /\ hb = HostileBudget /\ sleeps = 0
         /\ acc = [e \in Endpoints |-> Acc0(RoleOf[e], Paired0[e] \/ Auto0[e])]
         /\ viol = {}
         /\ lastAct = Act("init", "", "", "")
@@ -592,20 +614,21 @@ Env == \/ Tick \/ Sleep \/ Nop
            \/ \E m \in AdvMsgs : Inject(e, m)
 
 Next == /\ Env
+        /\ sleeps' = IF lastAct'.a = "Sleep" THEN sleeps + 1 ELSE sleeps
         /\ JudgeAll
         /\ hist' = IF EmitMode = "none" THEN hist ELSE Append(hist, Step)
 
 Spec == Init /\ [][Next]_vars
 
 (*************************** emission for the replay harness *********************)
-EmitEdge  == EmitMode # "edge" \/ PrintT(<<"TEST", ToJson(hist')>>)
-EmitFinal == EmitMode # "final" \/ TLCGet("level") < SimDepth - 1 \/ PrintT(<<"TEST", ToJson(hist')>>)
+EmitEdge  == EmitMode # "edge" \/ PrintT(<<"TEST", ToJson([h |-> hist', l |-> Last])>>)
+EmitFinal == EmitMode # "final" \/ TLCGet("level") < SimDepth - 1 \/ PrintT(<<"TEST", ToJson([h |-> hist'])>>)
 \* model-side violation keys (stage M diagnostics): printed, never a verdict about the code
 EmitViol  == viol' = {} \/ PrintT(<<"MVIOL", ToJson([v |-> viol', act |-> lastAct'])>>)
 
 (*************************** view: state identity without the step outputs *******)
 RView(r) == [r EXCEPT !.ev = <<>>, !.outbox = <<>>]
-View == <<[e \in Endpoints |-> RView(E[e])], net, failBudget, userDone, approvedPending, cancelled, userClosed, faults, hb, acc, viol>>
+View == <<[e \in Endpoints |-> RView(E[e])], net, failBudget, userDone, approvedPending, cancelled, userClosed, faults, hb, sleeps, acc, viol>>
 
 (*************************** properties ********************************************)
 \* every violation key the shared formulas produce on the model is a known finding
